@@ -86,7 +86,8 @@ struct BinCfg {
     tol: f64,
     maxit: u64,
     init: Option<Vec<f64>>,
-    thr_mode: u64, // 0: 0.5, 1: 0.0, 2: 1.0, 3: 0.3, 4: probability of query 0
+    thr_mode: u64, // 0: 0.5, 1: 0.0, 2: 1.0, 3: 0.3, 4: probability of query 0, 5 / 6: the float just above / below it, 7: thr_val
+    thr_val: f64,
 }
 
 struct BinOut {
@@ -118,7 +119,15 @@ fn fit_bin<C: LabT>(x: Array2<f64>, labels: Vec<C>, cfg: BinCfg, q: Array2<f64>)
             1 => 0.0,
             2 => 1.0,
             3 => 0.3,
-            _ => if probs0.len() > 0 && probs0[0].is_finite() { probs0[0] } else { 0.5 },
+            7 => cfg.thr_val,
+            md => {
+                let p0 = if probs0.len() > 0 && probs0[0].is_finite() { probs0[0] } else { 0.5 };
+                match md {
+                    5 => if p0 < 1.0 { p0.next_up() } else { 1.0 },
+                    6 => if p0 > 0.0 { p0.next_down() } else { 0.0 },
+                    _ => p0,
+                }
+            }
         };
         let m = m.set_threshold(thr);
         let probs = m.predict_probabilities(&q);
@@ -346,7 +355,8 @@ fn binary_stream(rng: &mut Sm64, out: &mut Out, id: &mut u64, count: usize, thor
         let n = x.len();
         let naming = gen_naming(&mut r, 2, true);
         let init = if r.chance(0.25) { Some((0..(d + icpt as usize)).map(|j| 0.3 * r.gauss() / if j < d { scales[j] } else { 1.0 }).collect()) } else { None };
-        let cfg = BinCfg { alpha, icpt, tol, maxit: 2000, init, thr_mode: r.below(5) };
+        let thr_mode = r.below(8);
+        let cfg = BinCfg { alpha, icpt, tol, maxit: 2000, init, thr_mode, thr_val: *r.pick(&[0.05, 0.25, 0.5f64.next_up(), 0.5f64.next_down(), 0.75, 0.999, 1e-300, 5e-324]) };
         let labels = naming.coq_labels(&ids);
         // first fit to learn the direction of w for the extreme queries
         let q0 = vec![x[0].clone()];
@@ -365,6 +375,7 @@ fn binary_stream(rng: &mut Sm64, out: &mut Out, id: &mut u64, count: usize, thor
         out.bump(&format!("binary_labels_{}", naming.kind()));
         out.bump(&format!("binary_order_mode_{}", order_mode));
         out.bump(&format!("alpha_{:e}", alpha));
+        out.bump(&format!("binary_thr_mode_{}", cfg.thr_mode));
         let key = fnv_f64s(&x.concat(), fnv(format!("{:?}{:?}{}{}{}", ids, naming, alpha, icpt, tol).as_bytes()));
         match first {
             Err(e) => {
@@ -387,6 +398,195 @@ fn binary_stream(rng: &mut Sm64, out: &mut Out, id: &mut u64, count: usize, thor
         }
         *id += 1;
         let _ = it;
+    }
+}
+
+
+// ---------------------------------------------------------------------------------------------
+// binary logistic regression at f32
+// ---------------------------------------------------------------------------------------------
+
+struct Bin32Out {
+    w: Vec<f32>,
+    b: f32,
+    pos: String,
+    neg: String,
+    thr: f32,
+    exps: Vec<f32>,
+    probs: Vec<f32>,
+    preds: Vec<String>,
+}
+
+fn arr32(rows: &[Vec<f32>], d: usize) -> Array2<f32> {
+    Array2::from_shape_vec((rows.len(), d), rows.iter().flatten().cloned().collect()).unwrap()
+}
+fn cvec32(xs: &[f32]) -> String {
+    clist(xs, |x| format!("b32 {}", cbits32(*x)))
+}
+fn cmat32(rows: &[Vec<f32>]) -> String {
+    clist(rows, |r| cvec32(r))
+}
+fn widen(rows: &[Vec<f32>]) -> Vec<Vec<f64>> {
+    rows.iter().map(|r| r.iter().map(|v| *v as f64).collect()).collect()
+}
+
+fn fit_bin32<C: LabT>(x: Array2<f32>, labels: Vec<C>, cfg: BinCfg, q: Array2<f32>) -> Result<Bin32Out, FitErr> {
+    run_guarded(move || {
+        let ds = DatasetBase::new(x, Array1::from(labels));
+        let mut p = LogisticRegression::<f32>::default()
+            .alpha(cfg.alpha as f32)
+            .with_intercept(cfg.icpt)
+            .gradient_tolerance(cfg.tol as f32)
+            .max_iterations(cfg.maxit);
+        if let Some(i) = cfg.init.as_ref() {
+            p = p.initial_params(Array1::from(i.iter().map(|v| *v as f32).collect::<Vec<f32>>()));
+        }
+        let m = p.fit(&ds).map_err(|e| FitErr::Lib(log_err_code(&e), format!("{}", e)))?;
+        let probs0 = m.predict_probabilities(&q);
+        let thr: f32 = match cfg.thr_mode {
+            0 => 0.5,
+            1 => 0.0,
+            2 => 1.0,
+            3 => 0.3,
+            7 => cfg.thr_val as f32,
+            md => {
+                let p0 = if probs0.len() > 0 && probs0[0].is_finite() { probs0[0] } else { 0.5 };
+                match md {
+                    5 => if p0 < 1.0 { p0.next_up() } else { 1.0 },
+                    6 => if p0 > 0.0 { p0.next_down() } else { 0.0 },
+                    _ => p0,
+                }
+            }
+        };
+        let m = m.set_threshold(thr);
+        let probs = m.predict_probabilities(&q);
+        let preds: Array1<C> = m.predict(&q);
+        let z = q.dot(m.params()) + m.intercept();
+        let exps: Vec<f32> = z.iter().map(|v| (-*v).exp()).collect();
+        Ok(Bin32Out {
+            w: m.params().to_vec(),
+            b: m.intercept(),
+            pos: m.labels().pos.class.coq(),
+            neg: m.labels().neg.class.coq(),
+            thr,
+            exps,
+            probs: probs.to_vec(),
+            preds: preds.iter().map(|c| c.coq()).collect(),
+        })
+    })
+}
+
+fn call_bin32(naming: &Naming, ids: &[usize], x: &[Vec<f32>], d: usize, cfg: &BinCfg, q: &[Vec<f32>]) -> Result<Bin32Out, FitErr> {
+    let xa = arr32(x, d);
+    let qa = arr32(q, d);
+    match naming {
+        Naming::Bools(m) => fit_bin32::<bool>(xa, ids.iter().map(|&i| m[i]).collect(), cfg.clone(), qa),
+        Naming::Nums(m) => fit_bin32::<usize>(xa, ids.iter().map(|&i| m[i]).collect(), cfg.clone(), qa),
+        Naming::Strs(m) => fit_bin32::<String>(xa, ids.iter().map(|&i| m[i].clone()).collect(), cfg.clone(), qa),
+    }
+}
+
+/// norm of the gradient of the documented objective at the returned f32 parameters, in f64 arithmetic
+fn bin_grad_norm64(x: &[Vec<f32>], ids: &[usize], pos_id: usize, alpha: f64, icpt: bool, w: &[f32], b: f32) -> f64 {
+    let d = w.len();
+    let mut g = vec![0.0f64; d + 1];
+    for (row, &c) in x.iter().zip(ids) {
+        let y = if c == pos_id { 1.0 } else { -1.0 };
+        let z: f64 = row.iter().zip(w).map(|(a, b)| *a as f64 * *b as f64).sum::<f64>() + b as f64;
+        let phi = -y / (1.0 + (y * z).exp());
+        for j in 0..d { g[j] += phi * row[j] as f64; }
+        g[d] += phi;
+    }
+    for j in 0..d { g[j] += alpha * w[j] as f64; }
+    if !icpt { g[d] = 0.0; }
+    g.iter().map(|v| v * v).sum::<f64>().sqrt()
+}
+
+fn binary32_stream(rng: &mut Sm64, out: &mut Out, id: &mut u64, count: usize) {
+    for it in 0..count {
+        let mut r = rng.fork();
+        let wide = it % 7 == 6;
+        let d = if wide { *r.pick(&[8usize, 9, 12]) } else { 1 + r.below(3) as usize };
+        let scales: Vec<f64> = (0..d).map(|_| if wide { *r.pick(&[0.5, 1.0, 2.0]) } else { *r.pick(&[0.1, 1.0, 1.0, 10.0]) }).collect();
+        let alpha = *r.pick(&ALPHAS);
+        let icpt = r.below(4) != 0;
+        let tol = *r.pick(&[1e-2, 1e-3]);
+        let core = alpha == 0.0 || r.chance(0.6);
+        let n_extra = if core { r.below(24) as usize } else { 6 + r.below(24) as usize };
+        let balance = *r.pick(&[0.0, 0.0, 1.5, -1.5]);
+        let data = gen_class_data(&mut r, 2, d, &scales, n_extra, core, balance);
+        let n = data.x.len();
+        let mut perm: Vec<usize> = (0..n).collect();
+        r.shuffle(&mut perm);
+        let x64 = permute(&data.x, &perm);
+        let mut ids = permute(&data.ids, &perm);
+        let mut x: Vec<Vec<f32>> = x64.iter().map(|row| row.iter().map(|v| *v as f32).collect()).collect();
+        // label-coding corner: sometimes make the first sample one of the minority class / force an exact count tie
+        let c0 = ids.iter().filter(|&&c| c == 0).count();
+        let minority = if c0 * 2 < n { 0 } else { 1 };
+        let order_mode = r.below(3);
+        if order_mode == 1 {
+            if let Some(p) = ids.iter().position(|&c| c == minority) { x.swap(0, p); ids.swap(0, p); }
+        } else if order_mode == 2 {
+            let mut c = [ids.iter().filter(|&&c| c == 0).count(), ids.iter().filter(|&&c| c == 1).count()];
+            let mut i = ids.len();
+            while c[0] != c[1] && i > 0 {
+                i -= 1;
+                let big = if c[0] > c[1] { 0 } else { 1 };
+                if ids[i] == big && c[big] > 1 { ids.remove(i); x.remove(i); c[big] -= 1; }
+            }
+        }
+        let n = x.len();
+        let naming = gen_naming(&mut r, 2, true);
+        let thr_mode = r.below(8);
+        let cfg = BinCfg { alpha: (alpha as f32) as f64, icpt, tol: (tol as f32) as f64, maxit: 2000, init: None, thr_mode,
+                           thr_val: *r.pick(&[0.05, 0.25, 0.75, 0.999, 1e-30, 1e-45]) };
+        let labels = naming.coq_labels(&ids);
+        let extra = format!("\"float\": \"f32\", \"labels\": {}, \"order_mode\": {}, \"core\": {}, \"thr_mode\": {}, \"scales\": {:?},", jstr(naming.kind()), order_mode, core, thr_mode, scales);
+        let x0: Vec<f64> = x[0].iter().map(|v| *v as f64).collect();
+        let desc = desc_common("LogisticRegression<f32>", "binary_f32", n, d, 2, cfg.alpha, icpt, cfg.tol, &extra, &x0);
+        let mut tags: Vec<String> = vec!["binary".into(), "f32".into(), format!("labels_{}", naming.kind())];
+        if alpha == 0.0 { tags.push("alpha0".into()); }
+        if icpt { tags.push("icpt".into()); }
+        let tagrefs: Vec<&str> = tags.iter().map(|s| s.as_str()).collect();
+        out.bump("binary_f32_fits");
+        out.bump(&format!("binary_f32_thr_mode_{}", thr_mode));
+        out.bump(&format!("binary_f32_order_mode_{}", order_mode));
+        let key = fnv_f64s(&widen(&x).concat(), fnv(format!("f32{:?}{:?}{}{}{}", ids, naming, alpha, icpt, tol).as_bytes()));
+        let q0 = vec![x[0].clone()];
+        match call_bin32(&naming, &ids, &x, d, &cfg, &q0) {
+            Err(e) => {
+                out.rust_fail(*id, 1024, &tagrefs, &err_what(&e), &desc);
+                out.rust_eval(&desc, None);
+            }
+            Ok(f0) => {
+                let w64: Vec<f64> = f0.w.iter().map(|v| *v as f64).collect();
+                let q64 = gen_queries(&mut r, &widen(&x), d, &scales, &w64, &[1.0e3, -1.0e3, 20.0, -17.5, 90.0, -104.0]);
+                let q: Vec<Vec<f32>> = q64.iter().map(|row| row.iter().map(|v| *v as f32).collect()).collect();
+                match call_bin32(&naming, &ids, &x, d, &cfg, &q) {
+                    Err(e) => {
+                        out.rust_fail(*id, 1024, &tagrefs, &err_what(&e), &desc);
+                        out.rust_eval(&desc, None);
+                    }
+                    Ok(f) => {
+                        if std::env::var("C12_DEBUG").is_ok() {
+                            let pos_id = match &naming { Naming::Bools(m) => m.iter().position(|v| v.coq() == f.pos), Naming::Nums(m) => m.iter().position(|v| v.coq() == f.pos), Naming::Strs(m) => m.iter().position(|v| v.coq() == f.pos) }.unwrap();
+                            let g = bin_grad_norm64(&x, &ids, pos_id, cfg.alpha, icpt, &f.w, f.b);
+                            eprintln!("f32 fit id={} n={} d={} alpha={} icpt={} tol={} |g|={:e} ratio={:.3}", *id, n, d, cfg.alpha, icpt, cfg.tol, g, g / cfg.tol);
+                        }
+                        let w64: Vec<f64> = f.w.iter().map(|v| *v as f64).collect();
+                        let term = format!(
+                            "CBin32 {} {{| b3c_labels := {}; b3c_X := {}; b3c_alpha := {}; b3c_icpt := {}; b3c_tol := {}; b3c_stat := {}; b3c_fit := {{| b3_w := {}; b3_b := b32 {}; b3_pos := {}; b3_neg := {}; b3_thr := b32 {}; b3_Q := {}; b3_exp := {}; b3_prob := {}; b3_pred := {}; b3_w64 := {}; b3_b64 := {} |}} |}}",
+                            cn(*id), clabs(&labels), cmat64(&widen(&x)), sf64(cfg.alpha), cbool(icpt), sf64(cfg.tol), cbool(true),
+                            cvec32(&f.w), cbits32(f.b), f.pos, f.neg, cbits32(f.thr), cmat32(&q), cvec32(&f.exps), cvec32(&f.probs), clabs(&f.preds),
+                            cvec64(&w64), sf64(f.b as f64)
+                        );
+                        out.case(*id, &term, &tagrefs, &desc, Some(key));
+                    }
+                }
+            }
+        }
+        *id += 1;
     }
 }
 
@@ -746,7 +946,7 @@ fn malformed_stream(rng: &mut Sm64, out: &mut Out, id: &mut u64, count: usize) {
         let d = 1 + r.below(3) as usize;
         let n = 3 + r.below(8) as usize;
         let x: Vec<Vec<f64>> = (0..n).map(|_| (0..d).map(|_| r.gauss()).collect()).collect();
-        let cfgb = BinCfg { alpha: 1.0, icpt: true, tol: 1e-4, maxit: 100, init: None, thr_mode: 0 };
+        let cfgb = BinCfg { alpha: 1.0, icpt: true, tol: 1e-4, maxit: 100, init: None, thr_mode: 0, thr_val: 0.5 };
         let q = vec![x[0].clone()];
         match it % 8 {
             0 | 1 | 2 => {
@@ -868,6 +1068,9 @@ fn main() {
     let mut r4 = rng.fork();
     id = 300_000;
     malformed_stream(&mut r4, &mut out, &mut id, nx);
+    let mut r5 = rng.fork();
+    id = 400_000;
+    binary32_stream(&mut r5, &mut out, &mut id, if thorough { 300 } else { 48 });
     out.finish("binary: 2-class data (core of d+1 points carrying both classes when alpha = 0, noisy linear labels, per-feature scales 1e-2..1e2, class balance, sample order incl. minority/majority first and exact count ties, bool/usize/String labels with adversarial naming, optional initial parameters) x alpha {0,1e-3,1,100} x intercept x tolerance; multinomial: 2..6 classes likewise (well-conditioned feature scales) plus the row-spread family of finding F37; GLM: powers {0,1,1.2,1.5,2,3} x links x alpha x intercept with targets in range and |x| <= 1; malformed: class-count errors, shape / non-finite / initial-parameter errors, GLM support violations and border values; queries include stored rows, fresh rows, the origin and rows with |x.w| up to 1e4; non-trivial = every successfully fitted case; distinct = hashes of (data, labels, configuration)");
     std::process::exit(0);
 }
